@@ -56,3 +56,50 @@ Print Assumptions C10_map_reexport.
 Theorem C10_map_wf_reachable : forall l, m_wf (fold_left m_exec_remote l m_init).
 Proof. exact map_wf_reachable. Qed.
 Print Assumptions C10_map_wf_reachable.
+
+(* The whole datatype, not only its kernel state (Model/Datatype.v: state, operation id, buffer, checkpoint, rollback
+   point and the operations to replay after it; [dt_import] = SetMetaAndSnapshot called from outside).  A datatype reached
+   from its creation by ANY history of calls, transactions (committed or aborted), received operations and checkpoint moves
+   is exported there and imported into any other instance: the restored instance shows the same state and operation id,
+   and under EVERY continuation history — local calls valid and invalid, user transactions committed or ABORTED, remote
+   operations — the same calls panic or not and both show the same state and operation id after every step.
+   (The unrepaired code violated this: an aborted transaction on a restored instance came back to the state before the
+   import; see KNOWN_FINDINGS, "fix: importing meta and snapshot takes the rollback point".) *)
+From Orda.Model Require Import Datatype.
+From Orda.Proofs Require Import DatatypeFacts KernelInst.
+Theorem C10_restored_datatype_indistinguishable_list : forall c es0 d fresh es, l_run (l_new c) es0 = Some d ->
+  let r := l_import fresh (d_snap d) (d_oid d) in
+  d_snap r = d_snap d /\ d_oid r = d_oid d /\
+  match l_run d es, l_run r es with Some d', Some r' => d_snap r' = d_snap d' /\ d_oid r' = d_oid d' | None, None => True | _, _ => False end.
+Proof. exact list_restored_indistinguishable. Qed.
+Print Assumptions C10_restored_datatype_indistinguishable_list.
+
+Theorem C10_restored_datatype_indistinguishable_map : forall c es0 d fresh es, m_run (m_new c) es0 = Some d ->
+  let r := m_import fresh (d_snap d) (d_oid d) in
+  d_snap r = d_snap d /\ d_oid r = d_oid d /\
+  match m_run d es, m_run r es with Some d', Some r' => d_snap r' = d_snap d' /\ d_oid r' = d_oid d' | None, None => True | _, _ => False end.
+Proof. exact map_restored_indistinguishable. Qed.
+Print Assumptions C10_restored_datatype_indistinguishable_map.
+
+Theorem C10_restored_datatype_indistinguishable_counter : forall c es0 d fresh es, c_run (c_new c) es0 = Some d ->
+  let r := c_import fresh (d_snap d) (d_oid d) in
+  d_snap r = d_snap d /\ d_oid r = d_oid d /\
+  match c_run d es, c_run r es with Some d', Some r' => d_snap r' = d_snap d' /\ d_oid r' = d_oid d' | None, None => True | _, _ => False end.
+Proof. exact counter_restored_indistinguishable. Qed.
+Print Assumptions C10_restored_datatype_indistinguishable_counter.
+
+(* non-vacuity: a list after two inserts is restored into a fresh instance; both then run an aborted transaction and an
+   insert: same state, same operation id *)
+Example C10_restored_example :
+  let c := [97]%N in
+  let es0 := [DCall lcall (LInsert 0 [VStr [1]%N]); DCall lcall (LInsert 1 [VStr [2]%N])] in
+  let es := [DTxn lcall [116]%N [LInsert 0 [VStr [9]%N]; LDelete 1 1] true; DCall lcall (LInsert 2 [VStr [3]%N])] in
+  match l_run (l_new c) es0 with
+  | Some d => match l_run d es, l_run (l_import (l_new [98]%N) (d_snap d) (d_oid d)) es with
+              | Some d', Some r' => d_snap r' = d_snap d' /\ d_oid r' = d_oid d' /\ l_values (d_snap d') = [VStr [1]%N; VStr [2]%N; VStr [3]%N]
+              | _, _ => False
+              end
+  | None => False
+  end.
+Proof. vm_compute. repeat split; reflexivity. Qed.
+Print Assumptions C10_restored_example.
